@@ -104,6 +104,13 @@ CHECKS = {
         "note": "Trusted: TLC; Go's package strings of the installed toolchain; the harness's program template per function.",
         "technique": "TLA+ reference definitions (GoStrings) evaluated by TLC, calibrated against Go, + validation of recorded runs of the compiled library",
     },
+    "C14": {
+        "text": "spec/Purity.tla is a trace specification with the partial function memo the history has revealed: a call event is enabled only if it agrees with memo, so TLC accepts a "
+                "recorded history iff ONE function of (content id, target) explains all of it (NoCrossTalk as an action property). TLC enumerates all histories of 1-2 calls and the "
+                "3-call histories sharing a process over 4 source trees x 2 targets x {same object, new object, new process[, relocated copy]}; the harness replays each into the real library.",
+        "note": "Trusted: TLC; the harness's process/segment handling; map-iteration seeds are sampled by process count, not enumerated.",
+        "technique": "TLA+ trace specification with an unknown function (memo) + TLC validation of recorded call histories enumerated by TLC",
+    },
 }
 
 NOT_APPLICABLE = {}
